@@ -58,6 +58,7 @@ KIND = [
     ("postcondition not satisfied", "postcondition"),
     ("invariant not satisfied at end of loop body", "invariant_end"),
     ("invariant not satisfied before loop", "invariant_entry"),
+    ("loop invariant not satisfied", "loop_exit"),
     ("assertion failed", "assert"),
     ("decreases not satisfied", "decreases"),
     ("could not prove termination", "decreases"),
@@ -163,7 +164,7 @@ def run(path, rlimit=30, multiple_errors=10, threads=8, timeout=900, extra=()):
         body_span = None
         for s in spans:
             lab = s.get("label") or ""
-            if "at the end of the function body" in lab or "at this exit" in lab or "at this call-site" in lab:
+            if "at the end of the function body" in lab or "at this exit" in lab or "at this call-site" in lab or "at this loop exit" in lab:
                 body_span = s
         line = (body_span or prim[0])["line_start"]
         fn = enclosing_fn(ranges, line)
